@@ -233,8 +233,11 @@ FACT_MODULES = {
     "Anonymongo.Facts_gate": "Gate", "Anonymongo.Facts_priv": "Priv", "Anonymongo.Facts_wiring": "Wiring",
     "Anonymongo.Facts_globals": "Globals", "Anonymongo.Facts_writes": "Writes", "Anonymongo.Facts_mapping_write_only": "Mapping",
     "Anonymongo.Facts_inits": "Inits", "Anonymongo.Facts_footprint": "Footprint", "Anonymongo.Facts_footprint_atlas": "Footprint",
-    "Anonymongo.Facts_atlas_requests": "AtlasReq", "Anonymongo.Facts_vocabulary": "Vocabulary",
+    "Anonymongo.Facts_atlas_requests": "AtlasReq", "Anonymongo.Facts_vocabulary": "Vocabulary", "Anonymongo.Facts_regex": "Regex",
 }
+# the two fixed regular expressions are the ones the model's recognisers were written for (e-mail class: C01, C05; plan summary: C15, C13)
+for _p in ["C01", "C05", "C13", "C15"]:
+    PROPS[_p]["theorems"] = PROPS[_p]["theorems"] + ["Anonymongo.Facts_regex"]
 for _p, _s in PROPS.items():
     _em = [m for m in _s.get("extra_modules", []) if m != "Anonymongo.Props.SrcFacts"]
     for _t in _s["theorems"]:
